@@ -46,6 +46,8 @@ impl Build for Core {
             "g4" => Core::G4(s[0], s[1], s[2], s[3]),
             "g5" => Core::G5(s[0], s[1], s[2], s[3], s[4]),
             "g6" => Core::G6(s[0], s[1], s[2], s[3], s[4], s[5]),
+            "h3" => Core::H3(s[0], s[1], s[2]),
+            "h4" => Core::H4(s[0], s[1], s[2], s[3]),
             "c0" => Core::C0(),
             "c1" => Core::C1(),
             "w" => Core::W(aid()),
